@@ -35,7 +35,7 @@ Definition wf (cl: list cls) : Prop :=
 Lemma wf_nil : wf [].
 Proof. intros i k H. destruct i; discriminate. Qed.
 
-Lemma wf_define cl ps tg tu rq : wf cl -> wf (cl ++ [define cl ps tg tu rq]).
+Lemma wf_define cl ps tg tu rq ke : wf cl -> wf (cl ++ [define cl ps tg tu rq ke]).
 Proof.
   intros W i k H p Hp.
   destruct (Nat.lt_ge_cases i (length cl)) as [L|L].
@@ -49,8 +49,8 @@ Qed.
 
 Definition def_step (cl: list cls) (o: op) : list cls :=
   match o with
-  | Define ps tg tu rq => cl ++ [define cl ps tg tu rq]
-  | Decode _ _ _ => cl
+  | Define ps tg tu rq ke => cl ++ [define cl ps tg tu rq ke]
+  | _ => cl
   end.
 
 Lemma defs_eq ops : defs ops = fold_left def_step ops [].
@@ -59,7 +59,7 @@ Proof. reflexivity. Qed.
 Lemma wf_fold ops : forall cl, wf cl -> wf (fold_left def_step ops cl).
 Proof.
   induction ops as [|o r IH]; intros cl W; cbn; [exact W|].
-  apply IH. destruct o; cbn; [apply wf_define; exact W | exact W].
+  apply IH. destruct o; cbn; [apply wf_define; exact W | exact W | exact W | exact W].
 Qed.
 
 Lemma wf_defs ops : wf (defs ops).
@@ -319,63 +319,97 @@ Proof.
 Qed.
 
 Section Dispatch.
-  Variable acc : cls -> list nat -> bool.
+  Variable acc : cls -> list nat -> verdict.
   Variable sites : list site.
 
-  Lemma dispatch_inv : forall fuel top codec k s x inp t,
-    wf (classes x) -> reg_sound sites x -> key_site sites k = Some s ->
-    classes (fst (dispatch sites fuel top codec k s x inp t)) = classes x
-    /\ reg_sound sites (fst (dispatch sites fuel top codec k s x inp t)).
+  (* invariant carried through every (nested) call: same classes, all registries sound *)
+  Definition inv (cl: list cls) (x: st) : Prop := classes x = cl /\ reg_sound sites x.
+
+  Definition enter_ok (cl: list cls) (enter: st -> nat -> st * outcome) : Prop :=
+    forall x1 c, inv cl x1 -> inv cl (fst (enter x1 c)).
+
+  Lemma refill_retry_inv cl enter top codec k s t x0 :
+    wf cl -> enter_ok cl enter -> key_site sites k = Some s -> site_ok s (length cl) = true ->
+    inv cl x0 -> inv cl (fst (refill_retry enter top codec k s t x0)).
   Proof.
-    induction fuel as [|f IH]; intros top codec k s x inp t W RS K; cbn [dispatch]; [split; [reflexivity | exact RS]|].
+    intros W EO K OK [E RS]. unfold refill_retry.
+    set (r' := refill (classes x0) s (get_reg k (regs x0))).
+    set (rs := if codec then reset_nested top (built (classes x0) s) (regs x0) else regs x0).
+    assert (I': inv cl (St (classes x0) ((k, r') :: rs))).
+    { split; [exact E|]. intros k2 s2 t2 c2 K2 Hin. cbn in *. destruct (rkey_eqb k2 k) eqn:EQ.
+      - apply rkey_eqb_eq in EQ. subst k2. rewrite K in K2. injection K2 as <-.
+        apply refill_sound in Hin; [|rewrite E; exact W|rewrite E; exact OK].
+        destruct Hin as [Hin|Hin]; [|exact Hin]. eapply RS; eassumption.
+      - eapply RS; [exact K2|]. unfold rs in Hin. destruct codec; [eapply get_reg_reset; exact Hin | exact Hin]. }
+    destruct (reg_get t r') as [c|]; [|exact I'].
+    pose proof (EO _ c I') as H. destruct (enter (St (classes x0) ((k, r') :: rs)) c) as [x2 o]. cbn [fst] in H.
+    destruct o; exact H.
+  Qed.
+
+  Lemma field_body_inv cl enter top codec k s t x :
+    wf cl -> enter_ok cl enter -> key_site sites k = Some s -> site_ok s (length cl) = true ->
+    inv cl x -> inv cl (fst (field_body enter top codec k s t x)).
+  Proof.
+    intros W EO K OK I. unfold field_body.
+    destruct (reg_get t (get_reg k (regs x))) as [c|]; [|apply refill_retry_inv; assumption].
+    pose proof (EO _ c I) as H. destruct (enter x c) as [x1 o]. cbn [fst] in H.
+    destruct o; try exact H. apply refill_retry_inv; assumption.
+  Qed.
+
+  Lemma loop_body_inv cl enter : enter_ok cl enter -> forall vs x, inv cl x -> inv cl (fst (loop_body enter vs x)).
+  Proof.
+    intros EO. induction vs as [|v vs IH]; intros x I; cbn [loop_body]; [exact I|].
+    pose proof (EO _ v I) as H. destruct (enter x v) as [x1 o]. cbn [fst] in H.
+    destruct o; try (apply IH; exact H). exact H.
+  Qed.
+
+  Lemma dispatcher_inv : forall fuel top codec k s x inp present,
+    wf (classes x) -> reg_sound sites x -> key_site sites k = Some s ->
+    inv (classes x) (fst (dispatcher acc sites fuel top codec k s x inp present)).
+  Proof.
+    induction fuel as [|f IH]; intros top codec k s x inp present W RS K; cbn [dispatcher]; [split; [reflexivity | exact RS]|].
     destruct (negb (site_ok s (length (classes x)))) eqn:OK; [split; [reflexivity | exact RS]|].
     apply negb_false_iff in OK.
-    assert (ENTER: forall x1 c, classes x1 = classes x -> reg_sound sites x1 ->
-      let r := match config_site sites c with
-               | None => (x1, OInst c)
-               | Some (j, sj) => if s_field sj
-                                 then match assoc (s_fid sj) inp with
-                                      | None => (x1, OMissing)
-                                      | Some t' => dispatch sites f top codec (if codec then (top, S c) else (j, 0)) sj x1 inp t'
-                                      end
-                                 else (x1, ONotFound)
-               end in
-      classes (fst r) = classes x /\ reg_sound sites (fst r)).
-    { intros x1 c E1 S1. destruct (config_site sites c) as [[j sj]|] eqn:C; cbn; [|split; assumption].
-      destruct (s_field sj); [|cbn; split; assumption].
-      destruct (assoc (s_fid sj) inp) as [t'|]; [|cbn; split; assumption].
+    set (enter := enter_with acc sites (fun k' s' x' => dispatcher acc sites f top codec k' s' x' inp present) top codec present).
+    assert (EO: enter_ok (classes x) enter).
+    { intros x1 c [E1 RS1]. unfold enter, enter_with.
+      destruct (config_site sites c) as [[j sj]|] eqn:C; [|split; assumption].
       assert (K': key_site sites (if codec then (top, S c) else (j, 0)) = Some sj).
       { destruct codec; unfold key_site; cbn; [rewrite C; reflexivity | eapply config_site_nth; exact C]. }
-      destruct (IH top codec _ sj x1 inp t' (eq_ind_r wf W E1) S1 K') as [E2 S2].
-      split; [congruence | exact S2]. }
-    destruct (reg_get t (get_reg k (regs x))) as [c|] eqn:G.
-    - apply ENTER; [reflexivity | exact RS].
-    - set (r' := refill (classes x) s (get_reg k (regs x))).
-      set (rs := if codec then reset_nested top (built (classes x) s) (regs x) else regs x).
-      assert (S': reg_sound sites (St (classes x) ((k, r') :: rs))).
-      { intros k2 s2 t2 c2 K2 Hin. cbn in *. destruct (rkey_eqb k2 k) eqn:E.
-        - apply rkey_eqb_eq in E. subst k2. rewrite K in K2. injection K2 as <-.
-          apply refill_sound in Hin; [|exact W|exact OK]. destruct Hin as [Hin|Hin]; [|exact Hin].
-          eapply RS; eassumption.
-        - eapply RS; [exact K2|]. unfold rs in Hin. destruct codec; [eapply get_reg_reset; exact Hin | exact Hin]. }
-      destruct (reg_get t r') as [c|].
-      + apply (ENTER (St (classes x) ((k, r') :: rs)) c); [reflexivity | exact S'].
-      + split; [reflexivity | exact S'].
+      pose proof (IH top codec _ sj x1 inp present (eq_ind_r wf W E1) RS1 K') as H. rewrite E1 in H. exact H. }
+    assert (I: inv (classes x) x) by (split; [reflexivity | exact RS]).
+    destruct (s_field s).
+    - destruct (assoc (s_fid s) inp) as [[t|]|]; [|exact I|exact I]. apply field_body_inv; assumption.
+    - apply loop_body_inv; assumption.
+  Qed.
+
+  Lemma decode1_inv x i inp present : wf (classes x) -> reg_sound sites x ->
+    inv (classes x) (fst (decode1 acc sites x i inp present)).
+  Proof.
+    intros W RS. unfold decode1. destruct (nth_error sites i) as [s|] eqn:Es; [|split; [reflexivity | exact RS]].
+    apply dispatcher_inv; [exact W | exact RS | exact Es].
+  Qed.
+
+  Lemma decode_seq_inv : forall l x done, wf (classes x) -> reg_sound sites x ->
+    inv (classes x) (fst (decode_seq acc sites x l done)).
+  Proof.
+    induction l as [|[[i inp] present] l IH]; intros x done W RS; cbn [decode_seq]; [split; [reflexivity | exact RS]|].
+    pose proof (decode1_inv x i inp present W RS) as [E1 RS1].
+    destruct (decode1 acc sites x i inp present) as [x1 o]. cbn [fst] in *.
+    destruct o; try (split; assumption).
+    pose proof (IH x1 (c :: done) (eq_ind_r wf W E1) RS1) as H. rewrite E1 in H. exact H.
   Qed.
 
   Lemma reg_sound_step x o : wf (classes x) -> reg_sound sites x ->
     classes (fst (step acc sites x o)) = def_step (classes x) o /\ reg_sound sites (fst (step acc sites x o)).
   Proof.
-    intros W RS. destruct o as [ps tg tu rq | i inp present]; cbn [step].
+    intros W RS. destruct o as [ps tg tu rq ke | i inp present | l | i]; cbn [step].
     - split; [reflexivity|]. intros k s t c K Hin. cbn in *. apply carries_mono. eapply RS; eassumption.
-    - destruct (nth_error sites i) as [s|] eqn:Es; [|split; [reflexivity | exact RS]].
-      destruct (negb (site_ok s (length (classes x)))) eqn:OK; [split; [reflexivity | exact RS]|].
-      destruct (s_field s); [|split; [reflexivity | exact RS]].
-      destruct (assoc (s_fid s) inp) as [t|]; [|split; [reflexivity | exact RS]].
-      assert (K: key_site sites (i, 0) = Some s) by exact Es.
-      pose proof (dispatch_inv (S (S (length (classes x)))) i (s_codec s) (i, 0) s x inp t W RS K) as [E1 S1].
-      destruct (dispatch sites (S (S (length (classes x)))) i (s_codec s) (i, 0) s x inp t) as [x' o]. cbn in *.
-      split; assumption.
+    - pose proof (decode1_inv x i inp present W RS) as H.
+      destruct (decode1 acc sites x i inp present) as [x' o]. exact H.
+    - pose proof (decode_seq_inv l x [] W RS) as H.
+      destruct (decode_seq acc sites x l []) as [x' o]. exact H.
+    - split; [reflexivity | exact RS].
   Qed.
 
   Lemma fold_inv ops : forall x, wf (classes x) -> reg_sound sites x ->
@@ -385,7 +419,7 @@ Section Dispatch.
     induction ops as [|o r IH]; intros x W RS; cbn [fold_left]; [split; [reflexivity | exact RS]|].
     destruct (reg_sound_step x o W RS) as [E1 S1].
     assert (W1: wf (classes (fst (step acc sites x o)))).
-    { rewrite E1. destruct o; cbn; [apply wf_define; exact W | exact W]. }
+    { rewrite E1. destruct o; cbn; [apply wf_define; exact W | exact W | exact W | exact W]. }
     destruct (IH _ W1 S1) as [E2 S2]. split; [rewrite E2, E1; reflexivity | exact S2].
   Qed.
 
@@ -403,191 +437,337 @@ Section Dispatch.
   Proof.
     intros Hs Hin. rewrite <- (final_classes ops). eapply registry_invariant; [|exact Hin]. exact Hs.
   Qed.
+
+  (* ---------------------------------------------------------------- *)
+  (* the decode events                                                 *)
+  (* ---------------------------------------------------------------- *)
+
+  (* no class that carries the tag is itself a class-level dispatcher (README: a class-level discriminator
+     cannot produce the class that declares it) *)
+  Definition plain_carriers (cl: list cls) (s: site) (t: tag) : Prop :=
+    forall c, carries cl s c t -> config_site sites c = None.
+
+  (* the from_dict of a class that carries the tag does not itself leak a KeyError (see variant_keyerror_refuted) *)
+  Definition no_keyerror (cl: list cls) (s: site) (t: tag) (present: list nat) : Prop :=
+    forall c, carries cl s c t -> acc (nth c cl dummy_cls) present <> VKeyError.
+
+  Lemma field_spec_of_leaf cl s t present c :
+    tag_unique cl s t -> carries cl s c t -> acc (nth c cl dummy_cls) present <> VKeyError ->
+    field_spec acc cl s t present (leaf acc cl c present).
+  Proof.
+    intros U C NK. unfold leaf, field_spec.
+    destruct (acc (nth c cl dummy_cls) present) eqn:V; [| |congruence].
+    - split; [|split; [|split; [|split; [|split; [|split; [|split]]]]]].
+      + intros c'. split.
+        * intros E. injection E as <-. split; [exact C | exact V].
+        * intros [C' _]. f_equal. apply U; assumption.
+      + intros c'. split; [discriminate|]. intros [C' V']. rewrite (U _ _ C' C) in V'. congruence.
+      + split; [discriminate|]. intros H. exfalso. exact (H c C).
+      + discriminate.
+      + discriminate.
+      + intros c' E. discriminate.
+      + intros cs E. discriminate.
+      + discriminate.
+    - split; [|split; [|split; [|split; [|split; [|split; [|split]]]]]].
+      + intros c'. split; [discriminate|]. intros [C' V']. rewrite (U _ _ C' C) in V'. congruence.
+      + intros c'. split.
+        * intros E. injection E as <-. split; [exact C | exact V].
+        * intros [C' _]. f_equal. apply U; assumption.
+      + split; [discriminate|]. intros H. exfalso. exact (H c C).
+      + discriminate.
+      + discriminate.
+      + intros c' E. discriminate.
+      + intros cs E. discriminate.
+      + discriminate.
+  Qed.
+
+  Lemma field_spec_none cl s t present : (forall c, ~ carries cl s c t) -> field_spec acc cl s t present ONotFound.
+  Proof.
+    intros NO. unfold field_spec. split; [|split; [|split; [|split; [|split; [|split; [|split]]]]]].
+    - intros c. split; [discriminate|]. intros [C _]. exfalso. exact (NO c C).
+    - intros c. split; [discriminate|]. intros [C _]. exfalso. exact (NO c C).
+    - split; [intros _; exact NO | reflexivity].
+    - discriminate.
+    - discriminate.
+    - intros c E. discriminate.
+    - intros cs E. discriminate.
+    - discriminate.
+  Qed.
+
+  (* a class without class-level discriminator is a leaf *)
+  Definition enter_leaf (present: list nat) (enter: st -> nat -> st * outcome) : Prop :=
+    forall x1 c, config_site sites c = None -> enter x1 c = (x1, leaf acc (classes x1) c present).
+
+  Lemma refill_retry_correct cl enter top codec k s t present x0 :
+    wf cl -> inv cl x0 -> key_site sites k = Some s -> site_ok s (length cl) = true ->
+    tag_unique cl s t -> plain_carriers cl s t -> no_keyerror cl s t present -> enter_leaf present enter ->
+    field_spec acc cl s t present (snd (refill_retry enter top codec k s t x0)).
+  Proof.
+    intros W [E RS] K OK U P NK EL. unfold refill_retry.
+    set (r' := refill (classes x0) s (get_reg k (regs x0))).
+    set (rs := if codec then reset_nested top (built (classes x0) s) (regs x0) else regs x0).
+    destruct (reg_get t r') as [c|] eqn:G'.
+    - assert (C: carries cl s c t).
+      { apply reg_get_In in G'. unfold r' in G'. rewrite E in G'. apply refill_sound in G'; [|exact W|exact OK].
+        destruct G' as [G'|G']; [|exact G']. rewrite <- E. eapply RS; eassumption. }
+      rewrite (EL _ c (P c C)). cbn [classes]. rewrite E.
+      pose proof (field_spec_of_leaf cl s t present c U C (NK c C)) as F.
+      unfold leaf in *. destruct (acc (nth c cl dummy_cls) present) eqn:V; cbn [snd]; try exact F.
+      exfalso. exact (NK c C V).
+    - cbn [snd]. apply field_spec_none. intros c C.
+      destruct (refill_complete _ _ (get_reg k (regs x0)) _ _ W C) as [c' E']. unfold r' in G'. rewrite E in G'. congruence.
+  Qed.
+
+  Lemma field_body_correct cl enter top codec k s t present x :
+    wf cl -> inv cl x -> key_site sites k = Some s -> site_ok s (length cl) = true ->
+    tag_unique cl s t -> plain_carriers cl s t -> no_keyerror cl s t present -> enter_leaf present enter ->
+    field_spec acc cl s t present (snd (field_body enter top codec k s t x)).
+  Proof.
+    intros W I K OK U P NK EL. unfold field_body.
+    destruct (reg_get t (get_reg k (regs x))) as [c|] eqn:G; [|apply refill_retry_correct; assumption].
+    destruct I as [E RS].
+    assert (C: carries cl s c t) by (rewrite <- E; eapply RS; [exact K | apply reg_get_In; exact G]).
+    rewrite (EL _ c (P c C)). rewrite E.
+    pose proof (field_spec_of_leaf cl s t present c U C (NK c C)) as F.
+    unfold leaf in *. destruct (acc (nth c cl dummy_cls) present) eqn:V; cbn [snd]; try exact F.
+    exfalso. exact (NK c C V).
+  Qed.
+
+  Lemma enter_with_leaf rec top codec present : enter_leaf present (enter_with acc sites rec top codec present).
+  Proof. intros x1 c H. unfold enter_with. rewrite H. reflexivity. Qed.
+
+  (* one decode through a field site, from ANY sound state: invariant kept and outcome as the property demands *)
+  Lemma decode1_field x i s inp t present :
+    wf (classes x) -> reg_sound sites x ->
+    nth_error sites i = Some s -> s_field s = true -> site_ok s (length (classes x)) = true ->
+    assoc (s_fid s) inp = Some (Hashable t) ->
+    tag_unique (classes x) s t -> plain_carriers (classes x) s t -> no_keyerror (classes x) s t present ->
+    field_spec acc (classes x) s t present (snd (decode1 acc sites x i inp present)).
+  Proof.
+    intros W RS Hs Hf OK HT U P NK. unfold decode1. rewrite Hs. cbn [dispatcher]. rewrite OK. cbn [negb]. rewrite Hf. rewrite HT.
+    apply (field_body_correct (classes x));
+      [exact W | split; [reflexivity | exact RS] | exact Hs | exact OK | exact U | exact P | exact NK | apply enter_with_leaf].
+  Qed.
+
+  Theorem decode_field_correct pre i s inp t present :
+    nth_error sites i = Some s -> s_field s = true -> site_ok s (length (defs pre)) = true ->
+    assoc (s_fid s) inp = Some (Hashable t) ->
+    tag_unique (defs pre) s t -> plain_carriers (defs pre) s t -> no_keyerror (defs pre) s t present ->
+    exists o, snd (step acc sites (final acc sites pre) (Decode i inp present)) = Some o
+              /\ field_spec acc (defs pre) s t present o.
+  Proof.
+    intros Hs Hf OK HT U P NK.
+    pose proof (registry_invariant pre) as RS. pose proof (wf_defs pre) as W. pose proof (final_classes pre) as CL.
+    set (x := final acc sites pre) in *. rewrite <- CL in W, OK, U, P, NK |- *.
+    pose proof (decode1_field x i s inp t present W RS Hs Hf OK HT U P NK) as F.
+    cbn [step]. destruct (decode1 acc sites x i inp present) as [x' o]. exists o. split; [reflexivity | exact F].
+  Qed.
+
+  (* a holder with several discriminated fields: every field is decided by its own site *)
+  Definition entry_ok (cl: list cls) (e: nat * inkeys * list nat) : Prop :=
+    let '(i, inp, present) := e in
+    exists s, nth_error sites i = Some s /\ s_field s = true /\ site_ok s (length cl) = true
+              /\ forall t, assoc (s_fid s) inp = Some (Hashable t) ->
+                   tag_unique cl s t /\ plain_carriers cl s t /\ no_keyerror cl s t present.
+
+  Lemma decode_seq_correct : forall l x done, wf (classes x) -> reg_sound sites x ->
+    (forall e, In e l -> entry_ok (classes x) e) ->
+    seq_spec acc (classes x) sites l done (snd (decode_seq acc sites x l done)).
+  Proof.
+    induction l as [|[[i inp] present] l IH]; intros x done W RS H; cbn [decode_seq]; [apply seq_nil|].
+    destruct (H _ (or_introl eq_refl)) as [s [Hs [Hf [OK HT]]]].
+    pose proof (decode1_inv x i inp present W RS) as [E1 RS1].
+    destruct (assoc (s_fid s) inp) as [[t|]|] eqn:A.
+    - destruct (HT t eq_refl) as [U [P NK]].
+      pose proof (decode1_field x i s inp t present W RS Hs Hf OK A U P NK) as F.
+      destruct (decode1 acc sites x i inp present) as [x1 o]. cbn [fst snd] in *.
+      destruct o; try (eapply seq_fail; [exact Hs | exact A | exact F | intros c' E; discriminate]).
+      eapply seq_ok; [exact Hs | exact A | exact F|].
+      pose proof (IH x1 (c :: done) (eq_ind_r wf W E1) RS1) as G. rewrite E1 in G. apply G.
+      intros e He. apply H. right. exact He.
+    - assert (M: decode1 acc sites x i inp present = (x, ONotFound)).
+      { unfold decode1. rewrite Hs. cbn [dispatcher]. rewrite OK. cbn [negb]. rewrite Hf. rewrite A. reflexivity. }
+      rewrite M. cbn [snd]. eapply seq_unhashable; eassumption.
+    - assert (M: decode1 acc sites x i inp present = (x, OMissing)).
+      { unfold decode1. rewrite Hs. cbn [dispatcher]. rewrite OK. cbn [negb]. rewrite Hf. rewrite A. reflexivity. }
+      rewrite M. cbn [snd]. eapply seq_missing; eassumption.
+  Qed.
+
+  Theorem multi_field_correct pre l :
+    (forall e, In e l -> entry_ok (defs pre) e) ->
+    exists o, snd (step acc sites (final acc sites pre) (DecodeSeq l)) = Some o
+              /\ seq_spec acc (defs pre) sites l [] o.
+  Proof.
+    intros H. pose proof (registry_invariant pre) as RS. pose proof (wf_defs pre) as W. pose proof (final_classes pre) as CL.
+    set (x := final acc sites pre) in *. rewrite <- CL in W, H |- *.
+    pose proof (decode_seq_correct l x [] W RS H) as F.
+    cbn [step]. destruct (decode_seq acc sites x l []) as [x' o]. exists o. split; [reflexivity | exact F].
+  Qed.
+
+  Theorem missing_tag pre i s inp present :
+    nth_error sites i = Some s -> s_field s = true -> site_ok s (length (defs pre)) = true ->
+    assoc (s_fid s) inp = None ->
+    step acc sites (final acc sites pre) (Decode i inp present) = (final acc sites pre, Some OMissing).
+  Proof.
+    intros Hs Hf OK HT. cbn [step]. unfold decode1. rewrite Hs. cbn [dispatcher]. rewrite final_classes. rewrite OK.
+    cbn [negb]. rewrite Hf. rewrite HT. reflexivity.
+  Qed.
+
+  (* an unhashable value under the key cannot be the tag of any class: SuitableVariantNotFound, no lookup, state untouched *)
+  Theorem unhashable_tag pre i s inp present :
+    nth_error sites i = Some s -> s_field s = true -> site_ok s (length (defs pre)) = true ->
+    assoc (s_fid s) inp = Some Unhashable ->
+    step acc sites (final acc sites pre) (Decode i inp present) = (final acc sites pre, Some ONotFound).
+  Proof.
+    intros Hs Hf OK HT. cbn [step]. unfold decode1. rewrite Hs. cbn [dispatcher]. rewrite final_classes. rewrite OK.
+    cbn [negb]. rewrite Hf. rewrite HT. reflexivity.
+  Qed.
+
+  (* an input that is not a mapping: ValueError from a field dispatcher, nobody accepts it in no-field mode; state untouched *)
+  Theorem non_mapping pre i s :
+    nth_error sites i = Some s -> site_ok s (length (defs pre)) = true ->
+    step acc sites (final acc sites pre) (DecodeBad i)
+    = (final acc sites pre, Some (if s_field s then ONotDict else ONotFound)).
+  Proof.
+    intros Hs OK. cbn [step]. unfold decode_bad. rewrite Hs. rewrite final_classes. rewrite OK. reflexivity.
+  Qed.
+
+  (* the keys of all field dispatchers are present in the input (whatever their values) *)
+  Definition keys_present (inp: inkeys) : Prop :=
+    forall j sj, nth_error sites j = Some sj -> s_field sj = true -> assoc (s_fid sj) inp <> None.
+
+  Lemma refill_retry_nm enter top codec k s t x0 :
+    (forall x1 c, snd (enter x1 c) <> OMissing) -> snd (refill_retry enter top codec k s t x0) <> OMissing.
+  Proof.
+    intros EN. unfold refill_retry. destruct (reg_get t _) as [c|]; [|discriminate].
+    pose proof (EN (St (classes x0) ((k, refill (classes x0) s (get_reg k (regs x0)))
+        :: (if codec then reset_nested top (built (classes x0) s) (regs x0) else regs x0))) c) as H.
+    destruct (enter _ c) as [x2 o]. cbn [snd] in *. destruct o; try exact H; discriminate.
+  Qed.
+
+  Lemma loop_body_nm enter : forall vs x, snd (loop_body enter vs x) <> OMissing.
+  Proof.
+    induction vs as [|v vs IH]; intros x; cbn [loop_body]; [discriminate|].
+    destruct (enter x v) as [x1 o]. destruct o; try apply IH. discriminate.
+  Qed.
+
+  (* MissingDiscriminator is reported only for a key that is really absent: any state, any tag values, any depth *)
+  Lemma dispatcher_not_missing inp present : keys_present inp -> forall fuel top codec k s x,
+    (s_field s = true -> assoc (s_fid s) inp <> None) ->
+    snd (dispatcher acc sites fuel top codec k s x inp present) <> OMissing.
+  Proof.
+    intros KP. induction fuel as [|f IH]; intros top codec k s x OWN; cbn [dispatcher]; [discriminate|].
+    destruct (negb (site_ok s (length (classes x)))); [discriminate|].
+    set (enter := enter_with acc sites (fun k' s' x' => dispatcher acc sites f top codec k' s' x' inp present) top codec present).
+    assert (EN: forall x1 c, snd (enter x1 c) <> OMissing).
+    { intros x1 c. unfold enter, enter_with. destruct (config_site sites c) as [[j sj]|] eqn:C.
+      - apply IH. intros F. exact (KP j sj (config_site_nth _ _ _ _ C) F).
+      - cbn [snd]. unfold leaf. destruct (acc _ _); discriminate. }
+    destruct (s_field s) eqn:F; [|apply loop_body_nm].
+    destruct (assoc (s_fid s) inp) as [[t|]|] eqn:A; [|discriminate|exfalso; exact (OWN eq_refl eq_refl)].
+    unfold field_body. destruct (reg_get t (get_reg k (regs x))) as [c|]; [|apply refill_retry_nm; exact EN].
+    pose proof (EN x c) as H. destruct (enter x c) as [x1 o]. cbn [snd] in *.
+    destruct o; try exact H; try discriminate. apply refill_retry_nm; exact EN.
+  Qed.
+
+  Lemma decode1_not_missing x i inp present : keys_present inp -> snd (decode1 acc sites x i inp present) <> OMissing.
+  Proof.
+    intros KP. unfold decode1. destruct (nth_error sites i) as [s|] eqn:Es; [|discriminate].
+    apply dispatcher_not_missing; [exact KP|]. intros F. exact (KP i s Es F).
+  Qed.
+
+  Theorem present_keys_not_missing x i inp present :
+    keys_present inp -> snd (step acc sites x (Decode i inp present)) <> Some OMissing.
+  Proof.
+    intros KP. cbn [step]. pose proof (decode1_not_missing x i inp present KP) as H.
+    destruct (decode1 acc sites x i inp present) as [x' o]. cbn [snd] in *. intros E. apply H. congruence.
+  Qed.
 End Dispatch.
 
-(* ------------------------------------------------------------------ *)
-(* the decode events                                                   *)
-(* ------------------------------------------------------------------ *)
-
-Lemma field_spec_of_carrier cl s t c : tag_unique cl s t -> carries cl s c t -> field_spec cl s t (OInst c).
+Lemma field_spec_functional acc cl s t present o1 o2 :
+  field_spec acc cl s t present o1 -> field_spec acc cl s t present o2 -> o1 = o2.
 Proof.
-  intros U C. unfold field_spec. split; [|split; [|split]].
-  - intros c'. split.
-    + intros E. injection E as <-. exact C.
-    + intros C'. f_equal. apply U; assumption.
-  - split; [discriminate|]. intros H. exfalso. exact (H c C).
-  - discriminate.
-  - discriminate.
-Qed.
-
-(* no class that carries the tag is itself a class-level dispatcher (README: a class-level discriminator
-   cannot produce the class that declares it) *)
-Definition plain_carriers (sites: list site) (cl: list cls) (s: site) (t: tag) : Prop :=
-  forall c, carries cl s c t -> config_site sites c = None.
-
-Lemma dispatch_correct sites f top codec k s x inp t :
-  wf (classes x) -> reg_sound sites x -> key_site sites k = Some s ->
-  site_ok s (length (classes x)) = true ->
-  tag_unique (classes x) s t -> plain_carriers sites (classes x) s t ->
-  field_spec (classes x) s t (snd (dispatch sites (S f) top codec k s x inp t)).
-Proof.
-  intros W RS K OK U P. cbn [dispatch]. rewrite OK. cbn [negb].
-  destruct (reg_get t (get_reg k (regs x))) as [c|] eqn:G.
-  - assert (C: carries (classes x) s c t) by (eapply RS; [exact K | apply reg_get_In; exact G]).
-    rewrite (P c C). cbn. apply field_spec_of_carrier; assumption.
-  - destruct (reg_get t (refill (classes x) s (get_reg k (regs x)))) as [c|] eqn:G'.
-    + assert (C: carries (classes x) s c t).
-      { apply reg_get_In in G'. apply refill_sound in G'; [|exact W|exact OK].
-        destruct G' as [G'|G']; [|exact G']. eapply RS; eassumption. }
-      rewrite (P c C). cbn. apply field_spec_of_carrier; assumption.
-    + cbn.
-      assert (NO: forall c, ~ carries (classes x) s c t).
-      { intros c C. destruct (refill_complete _ _ (get_reg k (regs x)) _ _ W C) as [c' E]. congruence. }
-      unfold field_spec. split; [|split; [|split]].
-      * intros c. split; [discriminate|]. intros C. exfalso. exact (NO c C).
-      * split; [intros _; exact NO | reflexivity].
-      * discriminate.
-      * discriminate.
-Qed.
-
-Theorem decode_field_correct acc sites pre i s inp t present :
-  nth_error sites i = Some s -> s_field s = true -> site_ok s (length (defs pre)) = true ->
-  assoc (s_fid s) inp = Some t ->
-  tag_unique (defs pre) s t -> plain_carriers sites (defs pre) s t ->
-  exists o, snd (step acc sites (final acc sites pre) (Decode i inp present)) = Some o
-            /\ field_spec (defs pre) s t o.
-Proof.
-  intros Hs Hf OK HT U P.
-  pose proof (registry_invariant acc sites pre) as RS.
-  pose proof (wf_defs pre) as W.
-  pose proof (final_classes acc sites pre) as CL.
-  set (x := final acc sites pre) in *.
-  rewrite <- CL in W, OK, U, P |- *.
-  cbn [step]. rewrite Hs. rewrite OK. cbn [negb]. rewrite Hf. rewrite HT.
-  pose proof (dispatch_correct sites (S (length (classes x))) i (s_codec s) (i, 0) s x inp t W RS Hs OK U P) as F.
-  destruct (dispatch sites (S (S (length (classes x)))) i (s_codec s) (i, 0) s x inp t) as [x' o].
-  exists o. split; [reflexivity | exact F].
-Qed.
-
-Lemma field_spec_functional cl s t o1 o2 : field_spec cl s t o1 -> field_spec cl s t o2 -> o1 = o2.
-Proof.
-  intros [I1 [N1 [M1 B1]]] [I2 [N2 [M2 B2]]].
-  destruct o1 as [c| | |]; try congruence.
+  intros [I1 [R1 [N1 [M1 [B1 [K1 [Y1 D1]]]]]]] [I2 [R2 [N2 [M2 [B2 [K2 [Y2 D2]]]]]]].
+  destruct o1 as [c| | | |c|c|cs|].
   - symmetry. apply I2. apply I1. reflexivity.
+  - exfalso. apply M1. reflexivity.
   - symmetry. apply N2. apply N1. reflexivity.
+  - exfalso. apply B1. reflexivity.
+  - symmetry. apply R2. apply R1. reflexivity.
+  - exfalso. exact (K1 c eq_refl).
+  - exfalso. exact (Y1 cs eq_refl).
+  - exfalso. apply D1. reflexivity.
 Qed.
 
-(* same classes, same site settings, same tag => same answer, whatever was decoded or created before *)
-Theorem history_independent acc sites1 sites2 pre1 pre2 i1 i2 s inp1 inp2 t present1 present2 :
+(* same classes, same site settings, same tag, same other fields => same answer, whatever was decoded or created before *)
+Theorem history_independent acc sites1 sites2 pre1 pre2 i1 i2 s inp1 inp2 t present :
   nth_error sites1 i1 = Some s -> nth_error sites2 i2 = Some s -> s_field s = true ->
-  assoc (s_fid s) inp1 = Some t -> assoc (s_fid s) inp2 = Some t ->
+  assoc (s_fid s) inp1 = Some (Hashable t) -> assoc (s_fid s) inp2 = Some (Hashable t) ->
   defs pre1 = defs pre2 -> site_ok s (length (defs pre1)) = true -> tag_unique (defs pre1) s t ->
   plain_carriers sites1 (defs pre1) s t -> plain_carriers sites2 (defs pre1) s t ->
-  snd (step acc sites1 (final acc sites1 pre1) (Decode i1 inp1 present1))
-  = snd (step acc sites2 (final acc sites2 pre2) (Decode i2 inp2 present2)).
+  no_keyerror acc (defs pre1) s t present ->
+  snd (step acc sites1 (final acc sites1 pre1) (Decode i1 inp1 present))
+  = snd (step acc sites2 (final acc sites2 pre2) (Decode i2 inp2 present)).
 Proof.
-  intros H1 H2 Hf T1 T2 E OK U P1 P2.
-  destruct (decode_field_correct acc sites1 pre1 i1 s inp1 t present1 H1 Hf OK T1 U P1) as [o1 [E1 S1]].
-  rewrite E in OK, U, P2.
-  destruct (decode_field_correct acc sites2 pre2 i2 s inp2 t present2 H2 Hf OK T2 U P2) as [o2 [E2 S2]].
+  intros H1 H2 Hf T1 T2 E OK U P1 P2 NK.
+  destruct (decode_field_correct acc sites1 pre1 i1 s inp1 t present H1 Hf OK T1 U P1 NK) as [o1 [E1 S1]].
+  rewrite E in OK, U, P2, NK.
+  destruct (decode_field_correct acc sites2 pre2 i2 s inp2 t present H2 Hf OK T2 U P2 NK) as [o2 [E2 S2]].
   rewrite E in S1. rewrite E1, E2. f_equal. eapply field_spec_functional; eassumption.
-Qed.
-
-(* the keys of all field dispatchers are present in the input (whatever their values) *)
-Definition keys_present (sites: list site) (inp: list (nat * tag)) : Prop :=
-  forall j sj, nth_error sites j = Some sj -> s_field sj = true -> assoc (s_fid sj) inp <> None.
-
-(* MissingDiscriminator is reported only for a key that is really absent: in any state, for any tag values,
-   through any depth of nested dispatchers, without any other hypothesis *)
-Lemma dispatch_not_missing sites inp : keys_present sites inp -> forall fuel top codec k s x t,
-  snd (dispatch sites fuel top codec k s x inp t) <> OMissing.
-Proof.
-  intros KP. induction fuel as [|f IH]; intros top codec k s x t; cbn [dispatch]; [discriminate|].
-  destruct (negb (site_ok s (length (classes x)))); [discriminate|].
-  assert (ENTER: forall x1 c,
-    snd (match config_site sites c with
-         | None => (x1, OInst c)
-         | Some (j, sj) => if s_field sj
-                           then match assoc (s_fid sj) inp with
-                                | None => (x1, OMissing)
-                                | Some t' => dispatch sites f top codec (if codec then (top, S c) else (j, 0)) sj x1 inp t'
-                                end
-                           else (x1, ONotFound)
-         end) <> OMissing).
-  { intros x1 c. destruct (config_site sites c) as [[j sj]|] eqn:C; [|discriminate].
-    destruct (s_field sj) eqn:F; [|discriminate].
-    pose proof (KP j sj (config_site_nth _ _ _ _ C) F) as NN.
-    destruct (assoc (s_fid sj) inp) as [t'|]; [apply IH | congruence]. }
-  destruct (reg_get t (get_reg k (regs x))); [apply ENTER|].
-  destruct (reg_get t (refill (classes x) s (get_reg k (regs x)))); [apply ENTER | discriminate].
-Qed.
-
-Theorem present_keys_not_missing acc sites x i inp present :
-  keys_present sites inp -> snd (step acc sites x (Decode i inp present)) <> Some OMissing.
-Proof.
-  intros KP. cbn [step]. destruct (nth_error sites i) as [s|] eqn:Es; [|discriminate].
-  destruct (negb (site_ok s (length (classes x)))); [discriminate|].
-  destruct (s_field s) eqn:F.
-  2:{ cbn [snd]. unfold decode_nofield. destruct (find_map _ _); discriminate. }
-  pose proof (KP i s Es F) as NN.
-  destruct (assoc (s_fid s) inp) as [t|]; [|congruence].
-  pose proof (dispatch_not_missing sites inp KP (S (S (length (classes x)))) i (s_codec s) (i, 0) s x t) as H.
-  destruct (dispatch sites (S (S (length (classes x)))) i (s_codec s) (i, 0) s x inp t) as [x' o].
-  cbn [snd] in *. intros E. apply H. congruence.
-Qed.
-
-Theorem missing_tag acc sites pre i s inp present :
-  nth_error sites i = Some s -> s_field s = true -> site_ok s (length (defs pre)) = true ->
-  assoc (s_fid s) inp = None ->
-  step acc sites (final acc sites pre) (Decode i inp present) = (final acc sites pre, Some OMissing).
-Proof.
-  intros Hs Hf OK HT. cbn [step]. rewrite Hs. rewrite final_classes. rewrite OK. cbn [negb]. rewrite Hf. rewrite HT. reflexivity.
 Qed.
 
 (* no eligible class is itself a class-level dispatcher *)
 Definition no_nested (sites: list site) (cl: list cls) (s: site) : Prop :=
   forall c, eligible cl s c -> config_site sites c = None.
 
-Lemma find_map_find {A} (f: A -> option A) (p: A -> bool) l :
-  (forall a, In a l -> f a = if p a then Some a else None) -> find_map f l = find p l.
+Definition acceptsb (acc: cls -> list nat -> verdict) (cl: list cls) (present: list nat) (c: nat) : bool :=
+  match acc (nth c cl dummy_cls) present with VAccept => true | _ => false end.
+
+Lemma loop_body_leaves acc sites present enter : enter_leaf acc sites present enter ->
+  forall vs x, (forall v, In v vs -> config_site sites v = None) ->
+  loop_body enter vs x = (x, match find (acceptsb acc (classes x) present) vs with Some c => OInst c | None => ONotFound end).
 Proof.
-  induction l as [|a l IH]; intros H; cbn; [reflexivity|].
-  rewrite (H a (or_introl eq_refl)). destruct (p a); [reflexivity|]. apply IH. intros b Hb. apply H. right. exact Hb.
+  intros EL. induction vs as [|v vs IH]; intros x H; cbn [loop_body find]; [reflexivity|].
+  rewrite (EL x v (H v (or_introl eq_refl))). unfold leaf, acceptsb at 1.
+  destruct (acc (nth v (classes x) dummy_cls) present); try reflexivity;
+    (rewrite IH; [reflexivity | intros w Hw; apply H; right; exact Hw]).
 Qed.
 
-Theorem nofield_correct acc sites pre i s t present :
+Theorem nofield_correct acc sites pre i s inp present :
   nth_error sites i = Some s -> s_field s = false -> site_ok s (length (defs pre)) = true ->
   no_nested sites (defs pre) s ->
-  exists o, step acc sites (final acc sites pre) (Decode i t present) = (final acc sites pre, Some o)
+  exists o, step acc sites (final acc sites pre) (Decode i inp present) = (final acc sites pre, Some o)
             /\ nofield_spec acc (defs pre) s present o.
 Proof.
   intros Hs Hf OK NN.
   pose proof (wf_defs pre) as W.
   pose proof (final_classes acc sites pre) as CL.
-  cbn [step]. rewrite Hs. rewrite CL. rewrite OK. cbn [negb]. rewrite Hf.
-  eexists. split; [reflexivity|]. unfold decode_nofield. rewrite CL.
-  set (p := fun c => acc (nth c (defs pre) dummy_cls) present).
-  rewrite (find_map_find _ p).
-  2:{ intros c Hc. cbn [try_cls]. rewrite (NN c); [reflexivity|]. apply variants_spec; assumption. }
-  unfold nofield_spec. fold p.
+  cbn [step]. unfold decode1. rewrite Hs. cbn [dispatcher]. rewrite CL. rewrite OK. cbn [negb]. rewrite Hf.
+  rewrite (loop_body_leaves acc sites present _ (enter_with_leaf acc sites _ _ _ present)).
+  2:{ intros v Hv. apply NN. apply variants_spec; assumption. }
+  rewrite CL. eexists. split; [reflexivity|].
+  set (p := acceptsb acc (defs pre) present).
+  assert (PA: forall c, p c = true <-> acc (nth c (defs pre) dummy_cls) present = VAccept).
+  { intros c. unfold p, acceptsb. destruct (acc (nth c (defs pre) dummy_cls) present); split; congruence. }
+  unfold nofield_spec. fold (acceptsb acc (defs pre) present). fold p.
   destruct (find p (variants (defs pre) s)) as [c|] eqn:F.
   - split; [|split; [|split]].
     + intros c' E. injection E as <-.
       pose proof (find_some _ _ F) as [Hin Hp].
-      split; [apply variants_spec; assumption|]. split; [exact Hp|].
+      split; [apply variants_spec; assumption|]. split; [apply PA; exact Hp|].
       unfold variants in F. rewrite find_app in F.
       destruct (find p (if s_sub s then flat_map (all_sub (defs pre)) (s_bases s) else [])) as [c1|] eqn:F1.
       * injection F as <-. left. apply is_sub_variants; [exact W|]. exact (proj1 (find_some _ _ F1)).
       * right. intros c' Hs' Hacc. apply is_sub_variants in Hs'; [|exact W].
-        pose proof (find_none _ _ F1 c' Hs') as Hn. unfold p in Hn. congruence.
+        pose proof (find_none _ _ F1 c' Hs') as Hn. apply PA in Hacc. congruence.
     + split; [discriminate|]. intros H. exfalso.
-      pose proof (find_some _ _ F) as [Hin Hp]. apply (H c); [apply variants_spec; assumption | exact Hp].
+      pose proof (find_some _ _ F) as [Hin Hp]. apply (H c); [apply variants_spec; assumption | apply PA; exact Hp].
     + left. exists c. reflexivity.
     + reflexivity.
   - split; [|split; [|split]].
     + intros c E. discriminate.
     + split; [|reflexivity]. intros _ c He Hacc. apply variants_spec in He; [|exact W].
-      pose proof (find_none _ _ F c He) as Hn. unfold p in Hn. congruence.
+      pose proof (find_none _ _ F c He) as Hn. apply PA in Hacc. congruence.
     + right. reflexivity.
     + reflexivity.
 Qed.
